@@ -114,8 +114,8 @@ func toValRV(rv reflect.Value) map[string]any {
 		mk := "other"
 		if t.Key().Kind() != reflect.String {
 			mk = "nonstr"
-		} else if t.PkgPath() != "" {
-			mk = "other" // a named string-keyed map type (gin.H …): the map[string]any type assertion fails, reflect is used
+		} else if t.PkgPath() != "" || t.Key().PkgPath() != "" {
+			mk = "other" // a named string-keyed map type, or a map keyed by a NAMED string type (map[Lang]string): the type assertions fail, reflect is used (gin.H …): the map[string]any type assertion fails, reflect is used
 		} else if t.Elem().Kind() == reflect.Interface {
 			mk = "any"
 		} else if t.Elem().Kind() == reflect.String {
